@@ -98,3 +98,41 @@ Definition ci_eqb (a b : bytes) : bool := beq (ascii_lower a) (ascii_lower b).
    header block is then the empty string, followed by CRLF CRLF, i.e. one CRLF more than the blank line *)
 Definition roundtrip_residue (r : request) : bytes :=
   match r_headers r with [] => CRLF | _ => [] end.
+
+(* ---- Cookie field value ---- *)
+Definition SEMI : N := 59.
+Definition EQUALS : N := 61.
+Definition COMMA : N := 44.
+
+(* one `;`-separated piece: `k = x` (raw, padding included) or a piece without `=` *)
+Inductive citem := CPair (k x : bytes) | CBare (j : bytes).
+Definition citem_text (i : citem) : bytes := match i with CPair k x => k ++ EQUALS :: x | CBare j => j end.
+Definition citem_wf (i : citem) : bool :=
+  match i with
+  | CPair k x => nob SEMI k && nob EQUALS k && nob SEMI x       (* x may contain `=` *)
+  | CBare j => nob SEMI j && nob EQUALS j
+  end.
+Definition citem_denote (i : citem) : option (bytes * bytes) :=
+  match i with CPair k x => Some (trim k, trim x) | CBare _ => None end.
+Definition cookie_value (items : list citem) : bytes := join_byte SEMI (map citem_text items).
+
+(* the usual spelling "k1=v1; k2=v2; ..." *)
+Fixpoint cookie_std (kvs : list (bytes * bytes)) : bytes :=
+  match kvs with
+  | [] => []
+  | [(k, v)] => k ++ EQUALS :: v
+  | (k, v) :: t => k ++ EQUALS :: v ++ SEMI :: SP :: cookie_std t
+  end.
+Definition cookie_kv_wf (kv : bytes * bytes) : Prop :=
+  trim (fst kv) = fst kv /\ trim (snd kv) = snd kv /\
+  nob SEMI (fst kv) = true /\ nob EQUALS (fst kv) = true /\ nob SEMI (snd kv) = true.
+
+(* ---- X-Forwarded-For field value: comma-separated entries with optional padding ---- *)
+Record xentry := { xe_pad : bytes; xe_text : bytes; xe_pad' : bytes }.
+Definition xe_raw (x : xentry) : bytes := xe_pad x ++ xe_text x ++ xe_pad' x.
+Definition xff_value (xs : list xentry) : bytes := join_byte COMMA (map xe_raw xs).
+Definition xe_wf (x : xentry) : Prop := nob COMMA (xe_raw x) = true /\ trim (xe_raw x) = xe_text x.
+(* sufficient: SP / HTAB padding around a text without a comma and without white space at either end *)
+Definition xe_wfb (x : xentry) : bool :=
+  forallb is_ows (xe_pad x) && forallb is_ows (xe_pad' x) && nob COMMA (xe_text x) &&
+  beq (trim_start (xe_text x)) (xe_text x) && beq (trim_end (xe_text x)) (xe_text x).
